@@ -425,6 +425,8 @@ def _recv_start(toks: list[Tok], end: int) -> int:
                 i -= 1
             elif prev and prev.text == "!" and i >= 2 and toks[i - 2].kind == "ident":
                 i -= 2
+            elif prev and prev.text == ">" and i >= 2 and toks[i - 2].text in "=-" and toks[i - 2].end == prev.start:
+                return i   # `=> (..)` / `-> (..)`: a parenthesised expression
             elif prev and prev.text == ">" :
                 # turbofish call  name::<..>(..)
                 depth, j = 0, i - 1
@@ -442,6 +444,9 @@ def _recv_start(toks: list[Tok], end: int) -> int:
                     return i
             else:
                 return i
+        elif t.kind == "punct" and t.text == "?":
+            i -= 1
+            continue
         elif t.kind not in ("ident", "num", "str", "char"):
             raise AnchorLost(f"cannot find receiver ending at offset {t.start}")
         # toks[i] is the head identifier of a path segment / call
